@@ -32,9 +32,24 @@ def mutant_table():
                                         "yes" if r.get("ok") else "**NO**"))
 
 
+def silent_table():
+    res = json.load(open(os.path.join(VERIF, "silent", "RESULTS.json")))
+    print("| id | area | diff | checks run: exit | all silent |")
+    print("|----|------|------|------------------|------------|")
+    for r in res:
+        meta = json.load(open(os.path.join(VERIF, "silent", r["id"], "meta.json")))
+        cells = ["%s: %d%s" % (p, c["exit"], (" `" + c["classes"][0] + "`") if c["classes"] else "")
+                 for p, c in r.get("checks", {}).items()]
+        print("| %s | %s | %s | %s | %s |" % (r["id"], meta.get("area", ""),
+                                            meta["validated"].get("diffstat", ""), "; ".join(cells),
+                                            "yes" if r.get("silent") else "**NO**"))
+
+
 if __name__ == "__main__":
     import sys
     if len(sys.argv) > 1 and sys.argv[1] == "mutants":
         mutant_table()
+    elif len(sys.argv) > 1 and sys.argv[1] == "silent":
+        silent_table()
     else:
         seeded_table()
